@@ -56,6 +56,7 @@ SPECS = {
     "crypto-ref": ("Eb", lambda t: ["crypto-ref", "600" if t == "thorough" else "120"], "standard security handler vs an independent transcription of Algorithms 2, 3, 4/5 (R2/R3, key lengths 5..16) and 2.B (R6) on the md5/sha2/aes primitives, over a generated password list"),
     "image-alpha": ("Eb", lambda t: ["image-alpha"], "RGBA buffers (widths 1..17, heights 1..3, opaque/binary/graded alpha) -> image XObject + SMask decoded with byte-aligned rows == supplied samples"),
     "fontsubset": ("Eb", lambda t: ["fontsubset"], "synthetic TrueType fonts (composites, last-glyph components, short/long loca, odd-length instruction programs) -> subset_font -> flattened outline and advance width of every requested character unchanged (independent glyf reader)"),
+    "cffindex": ("Eb", lambda t: ["cffindex"], "CFF INDEX writer build_cff_index: item lists with total data length on and around the offSize boundaries (255/256, 65535/65536) decoded again by an independent INDEX reader"),
     "labels": ("Eb", lambda t: ["labels", "20000" if t == "thorough" else "5000"], "decimal/roman format(n) vs reference formatters; PageLabel/PageLabelTree::to_dict read by an independent object-level reader"),
     "content": ("Eb", lambda t: ["content", "4" if t == "thorough" else "3"], "API -> content stream -> ContentParser::parse_strict: show-text operands and f64 operands with NaN/inf"),
     "png-grid": ("Eb", lambda t: ["png-grid"], "PNG files from a reference encoder (gray 1/2/4/8 bit, RGB8; filters 0-4; widths 1..17) -> Image::from_png_data vs expected 8-bit samples"),
